@@ -6,6 +6,7 @@ import HdVerif.Model.VRGuards
 import HdVerif.Generated.T20uid
 import HdVerif.Generated.T20sites
 import HdVerif.Generated.T20ds
+import HdVerif.Generated.T20shared
 import HdVerif.Model.AliasTables
 /-!
 # C20  Building objects never alters inputs and always yields valid files
@@ -238,6 +239,80 @@ theorem guard_sites_sound (site : String × String × String) (h : site ∈ guar
   · exact (guard_sound s).2.2.2 ha
 
 example : guardSites.length ≥ 30 := by decide
+
+/-! ### what a guard accepts, pydicom's validator accepts -/
+
+private theorem pyd_kind_text :
+    (["SH", "LO", "ST", "LT"].all fun vr => pydValidators.find? (·.1 == vr) == some (vr, "validate_type_and_length")) = true := by
+  decide
+
+private theorem pyd_text (vr : String) (n : Nat) (hk : pydValidators.find? (·.1 == vr) = some (vr, "validate_type_and_length"))
+    (hm : pydMax vr = n) (s : List Char) (hs : s.length ≤ n) : pydAccepts vr s = true := by
+  unfold pydAccepts pydLenOk
+  rw [hk, hm]
+  simp [hs]
+
+/-- **guard_accepts_pydicom_writable.**  Whatever one of the five guards accepts, pydicom's own validator for that value
+representation accepts (`validate_value(vr, s, RAISE)`, the rule applied when the value is assigned and written under strict
+validation): rule table (`MAX_VALUE_LEN`, `VALIDATORS`, the CS regular expression) regenerated from the **installed pydicom**
+(`Generated/T20pyd.lean`), interpreted by `VR.pydAccepts` (hand-written after `validate_vr_length` / `validate_regex`, compared with
+the real validator by correspondence stream `pydicom_rule`).  Character-set encoding at write time is not part of that rule
+(open finding `C20-non-latin1-text-unwritable`). -/
+theorem guard_accepts_pydicom_writable (s : List Char) :
+    (checkCodeString s = .ok () → pydAccepts "CS" s = true) ∧
+    (checkShortString s = .ok () → pydAccepts "SH" s = true) ∧
+    (checkLongString s = .ok () → pydAccepts "LO" s = true) ∧
+    (checkShortText s = .ok () → pydAccepts "ST" s = true) ∧
+    (checkLongText s = .ok () → pydAccepts "LT" s = true) := by
+  refine ⟨fun h => ?_, fun h => ?_, fun h => ?_, fun h => ?_, fun h => ?_⟩
+  · obtain ⟨⟨_, h16, hall⟩, _, _⟩ := (code_string_accept_iff s).mp h
+    have hk : pydValidators.find? (·.1 == "CS") = some ("CS", "validate_length_and_type_and_regex") := by decide
+    have hm : pydMax "CS" = 16 := by decide
+    unfold pydAccepts pydLenOk pydRegexOk
+    rw [hk, hm]
+    have hcls : ∀ c ∈ s, Cls.mem ⟨false, [(32, 32), (48, 57), (65, 90), (95, 95)]⟩ c = true := by
+      intro c hc
+      have := hall c hc
+      unfold isCSChar at this
+      simp [Cls.mem]; omega
+    have hre : reMatch pydRegexCS s = true := reMatch_star_eol _ s hcls
+    have hlast : (s.getLast? != some '\n') = true := by
+      cases hl : s.getLast? with
+      | none => rfl
+      | some c =>
+        have hc : c ∈ s := List.mem_of_getLast? hl
+        have := hall c hc
+        unfold isCSChar at this
+        have hne : c ≠ '\n' := by
+          intro e; subst e
+          revert this; decide
+        simp [hne]
+    simp [h16, hre, hlast]
+  · exact pyd_text "SH" 16 (by decide) (by decide) s ((short_string_accept_iff s).mp h).1
+  · exact pyd_text "LO" 64 (by decide) (by decide) s ((long_string_accept_iff s).mp h).1
+  · exact pyd_text "ST" 1024 (by decide) (by decide) s ((short_text_accept_iff s).mp h).1.1
+  · exact pyd_text "LT" 10240 (by decide) (by decide) s ((long_text_accept_iff s).mp h).1.1
+
+example : pydAccepts "CS" "DERIVED".toList = true := by decide
+example : pydAccepts "CS" "derived".toList = false := by decide
+example : pydAccepts "CS" "ABC\n".toList = false := by decide
+example : pydAccepts "SH" "seventeen chars..".toList = false := by decide
+
+/-! ### nothing outlives a call that a call could alter -/
+
+/-- **no_state_shared_between_calls.**  No function of the package (834 definitions scanned, table regenerated from all modules)
+has a mutable default argument, and none of the mutable objects that outlive a call — class attributes and module globals
+built from list / dict / set / constructor expressions (28: SOP class maps, the module-level `CodedConcept`s of seg / sr) — is
+changed in place by name anywhere in its module (`x[...] = …`, `x.f = …`, `x.append(…)`, `del x[...]` on `x`, `self.x`, `cls.x`,
+`C.x`): two constructions from the same inputs cannot differ because of an earlier call.  A kernel-checked lint over labels the
+translator assigns; alteration through an alias is covered by the oracle's second call with the same arguments. -/
+theorem no_state_shared_between_calls :
+    mutableDefaults = [] ∧ ∀ x ∈ sharedState, x.2 = "constant" := by
+  refine ⟨by decide, fun x hx => ?_⟩
+  have hk : (sharedState.all fun x => x.2 == "constant") = true := by decide
+  simpa using List.all_eq_true.mp hk x hx
+
+example : sharedScanFunctions ≥ 300 ∧ sharedState.length ≥ 10 := by decide
 
 /-! ### every value stored in a DS attribute is formatted -/
 
